@@ -145,4 +145,82 @@ CLAIMS = {
   'technique': 'static analysis: taint-to-sink scan, guard dominance on '
                'enumerated paths, key provenance',
  },
+ 'C16': {
+  'text': 'Decides key-derivation agreement of get_session/save_session '
+          '(same transport resolution, same namespace key, threaded and '
+          'asyncio), the context-manager contract (enter returns and keeps '
+          'get_session(sid, ns); exit unconditionally saves that object for '
+          'the same sid/ns and does not swallow exceptions) and the '
+          'lifetime rule "a session ends with its namespace connection" '
+          '(delete at every namespace-end site, or reset on admission). The '
+          'lifetime rule is violated on the pinned tree (session survives '
+          'DISCONNECT + re-CONNECT of a namespace on one transport): '
+          'recorded as known findings F2a/F2b. Privacy across transports '
+          'rests on engine.io (trusted).',
+  'note': TRUST,
+  'technique': 'static analysis: provenance of keys on enumerated paths, '
+               'pairing rule',
+ },
+ 'C20': {
+  'text': 'Decided as lock discipline, not as schedule exploration: in '
+          'Server.disconnect and Server._handle_disconnect the '
+          'connected-test and the pre_disconnect mark must execute under '
+          'one common lock (or inside one manager method that holds its '
+          'lock across both). No lock exists in the threaded server or the '
+          'managers today, so both sites are reported as known findings '
+          'F7a/F7b; a lock that covers only one of the two is reported as a '
+          'new violation. This is a necessary condition for the property.',
+  'note': TRUST + 'a repair relying on one GIL-atomic operation is not '
+          'recognised.',
+  'technique': 'static analysis: lockset (held-lock) check on enumerated '
+               'paths',
+ },
+ 'C08': {
+  'text': 'Decides the per-step state updates on every path of each client '
+          'handler: emit raises BadNamespaceError before any id generation '
+          'or send and send/call only go through emit; one CONNECT per '
+          'requested namespace with the resolved auth; every per-connection '
+          'attribute (namespaces, connected, callbacks, _binary_packet, sid) '
+          'is reset on every path of _handle_eio_disconnect; a server '
+          'DISCONNECT/CONNECT_ERROR leaves the namespace unlisted on every '
+          'normal path and clears connected with the last one; CONNECT '
+          'records the sid once; disconnect is reported only from the two '
+          'owning functions, once per listed namespace; a failed wait '
+          'disconnects before raising and connected is set only when all '
+          'namespaces were accepted. Whole histories are NOT explored.',
+  'note': TRUST,
+  'technique': 'static analysis: must-update / guard dominance on '
+               'enumerated paths, ownership',
+ },
+ 'C10': {
+  'text': 'Decides the policy skeleton, not the numbers: who may start a '
+          'reconnection; the start is dominated by `reconnection and '
+          "eio.state == 'connected'` and by the absence of a task; connect() "
+          'stores each argument and _handle_reconnect replays each to the '
+          'same-named parameter with retry=False; on the loop unrolled '
+          'twice: one abort wait before every attempt, abort exits without '
+          'attempt, the counter equals the attempts made, the give-up test '
+          'is exactly `attempts and not (count < attempts)`, success clears '
+          'the task, the registry entry is removed on every exit; the k-th '
+          'timeout depends on exactly the four parameters and random(), is '
+          'doubled k-1 times and compared with the cap; shutdown aborts '
+          'then joins. The back-off law and jitter bounds are NOT decided.',
+  'note': TRUST + 'engine.io clears eio.state before notifying an '
+          'intentional close.',
+  'technique': 'static analysis: path enumeration with bounded unrolling, '
+               'forwarding, dependency slice',
+ },
+ 'C19': {
+  'text': 'Structure only: the ordering discipline that makes the '
+          'producer/consumer hand-off correct - publish then signal; the '
+          'input event is cleared only after a wait returned and no wait '
+          'happens without an empty-buffer test since the last clear '
+          '(receive loop unrolled three times); pop(0) only after a '
+          'non-empty test; no foreign writer of the buffer; DisconnectedError '
+          'and TimeoutError only with the buffer empty; emit/call gated on '
+          'the connected event and flag with SocketIOError looping back. '
+          'Interleavings are NOT explored.',
+  'note': TRUST,
+  'technique': 'static analysis: ordering/window rules on enumerated paths',
+ },
 }
